@@ -47,6 +47,15 @@ def family():
                         prog = A.prog([], [A.func("f", [("a", A.INT), ("b", A.FLOAT)], A.FLOAT, body, True)])
                         inputs = [({"a": A.enc(a, A.INT), "b": A.enc(b, A.FLOAT)}, {}) for a, b in ((7, 2.0), (3, 0.5), (-5, 4.0))]
                         out.append((prog, inputs))
+    # one declared variable used directly after its initialiser (where a load-after-store forwarding applies), on either side
+    for op in OPS13:
+        for t1 in (A.INT, A.FLOAT):
+            for n1, e1 in inits:
+                for n2, e2 in inits:
+                    for side in (0, 1):
+                        e = A.bin_(op, A.var("x"), e2) if side == 0 else A.bin_(op, e2, A.var("x"))
+                        prog = A.prog([], [A.func("f", [("a", A.INT), ("b", A.FLOAT)], A.FLOAT, A.block([A.decl("x", t1, e1), A.ret(e)]), True)])
+                        out.append((prog, [({"a": A.enc(a, A.INT), "b": A.enc(b, A.FLOAT)}, {}) for a, b in ((7, 2.0), (-5, 4.0))]))
     return out
 
 
